@@ -235,6 +235,31 @@ def run(ctx):
             except Exception as ex:
                 ctx.exception("scalar-path", f"{name}: np.float32 scalar input {z!r} raised", ex, {"copy": name, "form": "np.float32"})
 
+        # ---- pressures that are not doubles: the shipped cloud-top-pressure maps are float32, and
+        #      whole-number pressures come as integers. The altitude of such a pressure is the altitude of
+        #      the same number as a double (1e-6 km), and P -> z -> P closes to 1e-6 relative.
+        p32 = np.exp(rng.uniform(math.log(max(p_top, 1e-2)), math.log(101325.0), 4000)).astype(np.float32)
+        pint = np.unique(np.round(np.exp(rng.uniform(0.0, math.log(101325.0), 2000)))).astype(np.int64)
+        for dname, parr in (("float32", p32), ("int64", pint)):
+            try:
+                ctx.count("dtype", parr.size)
+                za = np.asarray(zp(parr), dtype=np.float64)
+                zd = np.asarray(zp(parr.astype(np.float64)))
+                back = np.asarray(pz(za), dtype=np.float64)
+                e1 = np.abs(za - zd)
+                e2 = np.abs(back - parr.astype(np.float64)) / parr.astype(np.float64)
+                if not (np.all(e1 <= ZTOL) and np.all(e2 <= 1e-6)):
+                    i = int(np.argmax(np.maximum(e1 / ZTOL, e2 / 1e-6)))
+                    ctx.violation("roundtrip-p", f"{name}: {dname} pressure {parr[i]!r} Pa -> altitude {za[i]!r} km (the same number as a double gives {zd[i]!r} km) -> pressure {back[i]!r} Pa: relative round-trip error {e2[i]:.2e}", {"copy": name, "dtype": dname, "P": float(parr[i])})
+                s0 = parr[len(parr) // 2]
+                zs0 = float(np.asarray(zp(s0)))
+                if not abs(zs0 - float(zd[len(parr) // 2])) <= ZTOL:
+                    ctx.violation("scalar-path", f"{name}: {dname} scalar pressure {s0!r} gives {zs0!r} km, the same number as a double {float(zd[len(parr) // 2])!r} km", {"copy": name, "dtype": dname})
+            except PostBroken:
+                ctx.violation("scalar-path", f"{name}: {dname} pressures: result shape differs from input shape", {"copy": name, "dtype": dname})
+            except Exception as ex:
+                ctx.exception("roundtrip-p", f"{name}: {dname} pressures raised", ex, {"copy": name, "dtype": dname})
+
     # copies agree bit for bit
     if len(results) == 2:
         (n1, r1), (n2, r2) = results.items()
@@ -258,7 +283,7 @@ def run(ctx):
         repotests.run(ctx, "C19")
     ctx.count("contracts", ncontract["n"])
     ctx.observe("boundary_switch_altitudes_km", zb)
-    for m in ("roundtrip-z", "roundtrip-p", "positive", "monotone", "endpoints", "scalar-path", "copies", "abs-ref", "contracts"):
+    for m in ("dtype", "roundtrip-z", "roundtrip-p", "positive", "monotone", "endpoints", "scalar-path", "copies", "abs-ref", "contracts"):
         ctx.require(m)
     ctx.distinct.add_rows(z_all)
     ctx.distinct.add_rows(p_all)
